@@ -113,6 +113,20 @@ Section Dump.
      sx_args [param_call_name true v variadic];
      sx_args [param_call_name false v variadic]].
 
+  (* ArgCallListSlice / ArgCallListSliceNoEllipsis for a table of (start, end) pairs bounded by the
+     arity: start < min n 4, start <= end < min n 6, end = n, end < 0; and (n, n), (n, -1) *)
+  Definition pr_slice (o : option (list (str * bool))) : str :=
+    match o with Some l => sx_args l | None => B "PANIC" end.
+  Definition slice_table (d : mdata) : list str :=
+    let n := length (dparams d) in
+    flat_map (fun s =>
+        flat_map (fun e => [pr_slice (arg_call_list_slice d s (Some e) true); pr_slice (arg_call_list_slice d s (Some e) false)])
+                 (seq s (Nat.min n 6 - s)) ++
+        [pr_slice (arg_call_list_slice d s (Some n) true); pr_slice (arg_call_list_slice d s (Some n) false);
+         pr_slice (arg_call_list_slice d s None true)])
+      (seq 0 (Nat.min n 4)) ++
+    [pr_slice (arg_call_list_slice d n (Some n) true); pr_slice (arg_call_list_slice d n None true)].
+
   Definition dump_method (d : mdata) : list str :=
     [B "#M"; dname d; bstr (is_variadic d); bstr (has_params d); bstr (has_returns d); return_statement d;
      bstr (accepts_context d); bstr (returns_error d);
@@ -130,6 +144,7 @@ Section Dump.
      B "(sig " ++ sx_params (fst (signature d)) ++ B " " ++ sx_rlist (snd (signature d)) ++ B ")";
      B "(decl " ++ fst (declaration d) ++ B " " ++ sx_params (fst (snd (declaration d))) ++ B " " ++ sx_rlist (snd (snd (declaration d))) ++ B ")";
      B "(call " ++ fst (call d) ++ B " " ++ sx_args (snd (call d)) ++ B ")"] ++
+    slice_table d ++
     concat (mapi (fun k v => dump_var (B "#P") d v (pvariadic d k)) (dparams d)) ++
     concat (map (fun v => dump_var (B "#R") d v false) (dreturns d)) ++
     map (fun i => bstr (name_exists (dscope d) (qualifier i))) (f_imports f) ++
